@@ -66,7 +66,7 @@ def dropCount (now : Nat) : List Rec → Nat × Nat
   | [] => (0, 0)
   | r :: rs =>
     if r.shouldRemain now then (0, 0)
-    else let (n, f) := dropCount now rs; (n + 1, f + r.nframes)
+    else ((dropCount now rs).1 + 1, (dropCount now rs).2 + r.nframes)
 
 structure Guard where
   trivial : Bool
@@ -110,9 +110,9 @@ inductive Op
 
 /-- `SentJournal::resize` (also `Drop for SentRotateGuard`). -/
 def resize (s : State) : State :=
-  let (n, f) := dropCount s.now s.j.recs
-  if s.j.queueLen < f then { s with poisoned := some .drain }
-  else { s with j := { s.j with offset := s.j.offset + n, recs := s.j.recs.drop n, queueLen := s.j.queueLen - f } }
+  let d := dropCount s.now s.j.recs
+  if s.j.queueLen < d.2 then { s with poisoned := some .drain }
+  else { s with j := { s.j with offset := s.j.offset + d.1, recs := s.j.recs.drop d.1, queueLen := s.j.queueLen - d.2 } }
 
 /-- `IndexDeque::<_, VARINT_MAX>::push_back(..).expect(..)`. -/
 def pushRec (s : State) (r : Rec) : State :=
